@@ -31,3 +31,13 @@ Print Assumptions C13_fc_sender_legal.
 Theorem C13_constants : chunk_max = 16384%N /\ settings_stream_id = Zneg 1.
 Proof. exact (conj chunk_max_is_16KiB settings_id_is_minus_one). Qed.
 Print Assumptions C13_constants.
+
+(* system level, all interleavings of sends, reads, frame and credit delivery: the data frames a
+   sender has emitted always form a well-formed message stream (one envelope with the total size,
+   continuations adding up to it, contiguous) *)
+From GT Require Import Pipe PipeProofs.
+Theorem C13_system_emitted_stream_wellformed : forall (A : Type) cmax W ls (s : pst A),
+  prun cmax (p_init A W) ls = Some s ->
+  fst (rrun RIdle (p_sent s)) <> RFailed /\ existsb (@is_bad A) (snd (rrun RIdle (p_sent s))) = false.
+Proof. exact system_emitted_stream_wellformed. Qed.
+Print Assumptions C13_system_emitted_stream_wellformed.
